@@ -274,7 +274,7 @@ def check_pair(ctx, spec):
     cb = canon(alone)
     pickled, err_p = _try(lambda: pickle.loads(pickle.dumps(alone)))  # judged below, once the case is registered
     alone_b, err_b = _try(lambda: _compiled(_reader()._parse_statement(alone)))  # pylint: disable=protected-access
-    del alone
+    alone = None  # drop the only reference: nothing of the b-alone build survives into phase 1
     _clear_caches()
 
     # -- phase 1: a is built and used, then b is built next to it -----------------------------------------------------------
@@ -504,7 +504,7 @@ def check_intra(ctx, spec):
 
 def campaigns(ctx):
     return [
-        Campaign('pair', pair_strategy, check_pair, 700, 7000),
+        Campaign('pair', pair_strategy, check_pair, 700, 5000),
         Campaign('intra', intra_strategy, check_intra, 100, 1000),
     ]
 
